@@ -60,7 +60,13 @@ impl SocketSend for ReqSocket {
             if let Some(mut peer) = self.backend.peers.get_async(&next_peer_id).await {
                 self.backend.round_robin.push(next_peer_id.clone());
                 message.push_front(Bytes::new());
-                peer.send_queue.send(Message::Message(message)).await?;
+                if let Err(e) = peer.send_queue.send(Message::Message(message)).await {
+                    // The connection is gone: forget the peer. Its id left in the
+                    // rotation is skipped from now on.
+                    drop(peer);
+                    self.backend.peer_disconnected(&next_peer_id).await;
+                    return Err(e.into());
+                }
                 self.current_request = Some(next_peer_id);
                 return Ok(());
             }
@@ -77,6 +83,7 @@ impl SocketRecv for ReqSocket {
             Some(peer_id) => peer_id,
             None => return Err(ZmqError::Other("Unable to recv. No request in progress")),
         };
+        let mut peer_gone = false;
         let result = if let Some(mut peer) = self.backend.peers.get_async(&peer_id).await {
             match peer.recv_queue.next().await {
                 Some(Ok(Message::Message(mut m))) => {
@@ -94,12 +101,22 @@ impl SocketRecv for ReqSocket {
                     // Non-message frames should be ignored by the caller
                     Err(ZmqError::Other("Received non-message frame"))
                 }
-                Some(Err(error)) => Err(error.into()),
-                None => Err(ZmqError::NoMessage),
+                Some(Err(error)) => {
+                    peer_gone = true;
+                    Err(error.into())
+                }
+                None => {
+                    peer_gone = true;
+                    Err(ZmqError::NoMessage)
+                }
             }
         } else {
             Err(ZmqError::Other("Server disconnected"))
         };
+        if peer_gone {
+            // The connection failed or was closed by the peer: release it.
+            self.backend.peer_disconnected(&peer_id).await;
+        }
         self.current_request = None;
         result
     }
